@@ -9,6 +9,10 @@
 //!        update-time table, `reopen=` what the real store returns after a clean reopen, `crash=ok|bad`
 //!   `evict m=u<key>.<off>.<id>,...`  timestamps are `now − retention + off` µs (|off| ≥ 2 s); waits
 //!        for the eviction task. output: flags, `after=`, `index=` (timestamps as offsets)
+//!   `evstep m=<op>,...`  the eviction pass played step by step on the real store (background evict
+//!        task parked): `u<key>.<off>.<id>` publish, `s` read a real Snapshot below the cut-off and
+//!        enqueue its entries, `c` send the oldest queued `CheckExpired { time, key }` through the
+//!        store's channel. output: flags, `snap:<off>:<key>/...`, `chk:<off>:<key>`, `after=`, `index=`
 //!   `raw <k0><d0><k8><d8> <hex>`  `deserialize` on a raw row; the four bits are the key/DNS validity
 //!        of the row and of the row without its first 8 bytes (opaque predicates, answered by the
 //!        real parsers when the case is generated). output: `some:0` | `some:8` | `none`
@@ -516,6 +520,121 @@ impl C39 {
     }
 }
 
+impl C39 {
+    fn evstep_case(&self, ops: &[&str]) -> Exec {
+        let nkeys = 4u64;
+        let keys: Vec<[u8; 32]> = (0..nkeys).map(|k| *secret(KEY_BASE + k).public().as_bytes()).collect();
+        self.rt.block_on(async {
+            let mut ex = Exec::default();
+            let mut outs = Vec::new();
+            let backend = LogBackend::default();
+            let opts = StoreOptions {
+                max_batch_size: 1024,
+                max_batch_time: Duration::from_millis(20),
+                eviction: Duration::from_micros(RETENTION_US),
+                eviction_interval: Duration::from_secs(3600), // the background pass runs once, on the empty store
+            };
+            let core = Core::with_backend(backend.clone(), opts, default_origins()).expect("core");
+            tokio::time::sleep(Duration::from_millis(50)).await;
+            let now = SystemTime::now().duration_since(SystemTime::UNIX_EPOCH).unwrap().as_micros() as u64;
+            let base = now - RETENTION_US;
+            let off_of = |ts: u64| ts as i128 - base as i128;
+            let mut published = BTreeSet::new();
+            let mut queue: std::collections::VecDeque<(u64, u64)> = Default::default(); // (time, key index)
+            let (mut fresh_publishes, mut checks, mut republished_before_check) = (0, 0, 0);
+            let mut snapshot_seen: BTreeSet<u64> = BTreeSet::new();
+            async fn stored(core: &Core, kb: [u8; 32]) -> Option<(u64, Vec<u8>)> {
+                core.store_get(kb).await.expect("get").map(|p| (p.timestamp().as_micros(), p.as_bytes().to_vec()))
+            }
+            for op in ops {
+                match *op {
+                    "s" => {
+                        // a snapshot sees committed data only: let the open batch commit first
+                        wait_quiescent(&backend.log).await;
+                        let cutoff = SystemTime::now().duration_since(SystemTime::UNIX_EPOCH).unwrap().as_micros() as u64 - RETENTION_US;
+                        let mut found: Vec<(u64, u64)> = core
+                            .evict_snapshot_below(cutoff)
+                            .await
+                            .expect("snapshot")
+                            .into_iter()
+                            .map(|(t, k)| (t, key_index(&keys, &k)))
+                            .collect();
+                        found.sort();
+                        outs.push(if found.is_empty() {
+                            "snap:-".to_string()
+                        } else {
+                            format!("snap:{}", found.iter().map(|(t, k)| format!("{}:{k}", off_of(*t))).collect::<Vec<_>>().join("/"))
+                        });
+                        for f in &found {
+                            snapshot_seen.insert(f.1);
+                        }
+                        queue.extend(found);
+                    }
+                    "c" => match queue.pop_front() {
+                        None => outs.push("chk:-".into()),
+                        Some((time, k)) => {
+                            let before = stored(&core, keys[k as usize]).await;
+                            core.evict_check_expired(time, keys[k as usize]).await.expect("send");
+                            let after = stored(&core, keys[k as usize]).await; // FIFO channel: handled after the CheckExpired
+                            checks += 1;
+                            // oracle: eviction never removes a packet that is not older than the retention
+                            // period, whatever the index entry it was triggered by; and removes an older one
+                            match (&before, &after) {
+                                (Some((ts, _)), a) if off_of(*ts) >= 0 && a != &before => {
+                                    ex.violation(
+                                        "evicted-newer",
+                                        format!("CheckExpired(time {} µs, key {k}) removed the packet stored {} µs after the cut-off", off_of(time), off_of(*ts)),
+                                    );
+                                }
+                                (Some((ts, _)), Some(_)) if off_of(*ts) < 0 => {
+                                    ex.violation("expired-kept-by-check", format!("key {k}: packet {} µs before the cut-off survived its CheckExpired", -off_of(*ts)));
+                                }
+                                _ => {}
+                            }
+                            if before.as_ref().is_some_and(|(ts, _)| *ts != time) {
+                                republished_before_check += 1;
+                            }
+                            outs.push(format!("chk:{}:{k}", off_of(time)));
+                        }
+                    },
+                    u => {
+                        let Some(Msg::Upsert(k, off, id)) = parse_msgs(u).and_then(|v| v.first().copied()) else {
+                            return Exec::new("bad-input");
+                        };
+                        let ts = (base as i128 + off as i128) as u64;
+                        let p = signed(&secret(KEY_BASE + k), ts, &dns_of(k, id)).expect("packet");
+                        published.insert(p.as_bytes().to_vec());
+                        outs.push((core.store_insert(p).await.expect("insert") as u8).to_string());
+                        if off >= 0 && snapshot_seen.contains(&k) {
+                            fresh_publishes += 1;
+                        }
+                    }
+                }
+            }
+            wait_quiescent(&backend.log).await;
+            let bytes = backend.data.lock().unwrap().clone();
+            drop(core);
+            let mut problems = Vec::new();
+            let dump = raw_dump(&bytes, &keys, &published, &mut problems).unwrap_or_default();
+            for p in problems {
+                ex.violation(p.clone(), p);
+            }
+            outs.push(format!("after={}", fmt_packets(&dump.packets, Some(base))));
+            outs.push(format!("index={}", fmt_index(&dump.index, Some(base))));
+            ex.out = outs.join(" ");
+            ex.nontrivial = checks > 0;
+            ex.tags.push("kind=evstep".into());
+            if republished_before_check > 0 {
+                ex.tags.push("check-after-republish".into());
+            }
+            if fresh_publishes > 0 && republished_before_check > 0 {
+                ex.tags.push("fresh-republish-between-snapshot-and-check".into());
+            }
+            ex
+        })
+    }
+}
+
 fn raw_bits(data: &[u8]) -> String {
     let key_ok = |b: &[u8]| b.len() >= 32 && PublicKey::try_from(&b[..32]).is_ok();
     let dns_ok = |b: &[u8]| b.len() >= 104 && simple_dns::Packet::parse(&b[104..]).is_ok();
@@ -576,6 +695,40 @@ impl Prop for C39 {
                 .collect();
             out.push(format!("evict m={}", msgs.join(",")));
         }
+        // (2b) eviction step by step: snapshot, then a publish for the same key, then the CheckExpired
+        let old = "u0.-5000000.1";
+        for between in [
+            "u0.5000000.2",               // re-published fresh: must survive the stale CheckExpired
+            "u0.86400000000.0",           // fresh, far in the future
+            "u0.-7000000.2",              // older packet: ignored by the upsert, the old one is evicted
+            "u0.-3000000.2",              // newer but still expired: evicted (leaves a dangling index entry)
+            "u0.-5000000.2", "u0.-5000000.0", // equal timestamp, payload tie-break either way
+            "",                           // no publish
+            "u1.5000000.0",               // publish for another key
+        ] {
+            let b = if between.is_empty() { String::new() } else { format!("{between},") };
+            out.push(format!("evstep m={old},s,{b}c,s,c"));
+            out.push(format!("evstep m={old},u1.-9000000.0,s,{b}c,c,s,c,c"));
+        }
+        out.push(format!("evstep m={old},s,s,c,u0.5000000.2,c,s,c")); // key removed, re-published, stale duplicate check
+        out.push(format!("evstep m={old},s,s,c,c,s"));                 // duplicate check finds the key gone
+        out.push("evstep m=c,s,c".into());
+        let n_steps = if tier == Tier::Thorough { 150 } else { 10 };
+        for _ in 0..n_steps {
+            let len = rng.range(3, 12);
+            let ops: Vec<String> = (0..len)
+                .map(|_| match rng.below(5) {
+                    0 => "s".to_string(),
+                    1 | 2 => "c".to_string(),
+                    _ => {
+                        let mag = *rng.pick(&[2_000_000i64, 5_000_000, 60_000_000, 3_600_000_000]) + rng.below(3) as i64;
+                        let off = if rng.chance(3, 5) { -mag } else { mag };
+                        format!("u{}.{off}.{}", rng.below(3), rng.below(3))
+                    }
+                })
+                .collect();
+            out.push(format!("evstep m={}", ops.join(",")));
+        }
         // (1) crash workloads
         while out.len() < n {
             let b = rng.range(1, 4) as usize;
@@ -607,6 +760,11 @@ impl Prop for C39 {
                     return Exec::new("bad-input");
                 }
                 self.crash_case(b, &msgs)
+            }
+            ["evstep", m] => {
+                let Some(m) = m.strip_prefix("m=") else { return Exec::new("bad-input") };
+                let ops: Vec<&str> = m.split(',').filter(|o| !o.is_empty()).collect();
+                self.evstep_case(&ops)
             }
             ["evict", m] => {
                 let Some(msgs) = m.strip_prefix("m=").and_then(parse_msgs) else { return Exec::new("bad-input") };
